@@ -32,16 +32,20 @@ const (
 	opSendSysex
 	opStopAgain // the newest stop function a second time (defer stop() plus an explicit call)
 	opStopOld   // the stop function of the listener before, once more, while nobody listens
+	// a listener that calls its own stop function from inside the call-back,
+	// on the first message it receives (listen until the awaited message)
+	opListenSelfStop
 	nLcOps
 )
 
-var lcNames = []string{"in.Open", "out.Open", "Send(note)", "in.Listen", "midi.ListenTo", "stop()", "Send(start)", "midi.SendTo(note)", "in.Close", "out.Close", "in.Listen(sysex)", "Send(sysex)", "stop() again", "older stop() again"}
+var lcNames = []string{"in.Open", "out.Open", "Send(note)", "in.Listen", "midi.ListenTo", "stop()", "Send(start)", "midi.SendTo(note)", "in.Close", "out.Close", "in.Listen(sysex)", "Send(sysex)", "stop() again", "older stop() again", "in.Listen(stops itself)"}
 
 type lcModel struct {
 	inOpen, outOpen bool
 	listener        int  // 0 none, 1 active, 2 stopped
 	gen             int  // id of the current listener
 	sysex           bool // the current listener asked for sysex
+	selfStop        bool // the current listener stops itself on its first message
 }
 
 type lcInst struct {
@@ -62,7 +66,7 @@ func newLc() *lcInst {
 
 func (l *lcInst) enabled(op lcOp) bool {
 	switch op {
-	case opListen, opListenSysex:
+	case opListen, opListenSysex, opListenSelfStop:
 		return l.m.inOpen && l.m.listener != 1
 	case opListenTo:
 		return l.m.listener != 1
@@ -110,12 +114,20 @@ func (l *lcInst) apply(op lcOp) (sig, what string) {
 		case opOutClose:
 			err = l.out.Close()
 			l.m.outOpen = false
-		case opListen, opListenTo, opListenSysex:
+		case opListen, opListenTo, opListenSysex, opListenSelfStop:
 			l.m.gen++
 			id := l.m.gen
 			var stop func()
 			l.m.sysex = op == opListenSysex
-			if op == opListen || op == opListenSysex {
+			l.m.selfStop = op == opListenSelfStop
+			if op == opListenSelfStop {
+				stop, err = l.in.Listen(func(b []byte, ts int32) {
+					l.got[id] = append(l.got[id], append([]byte(nil), b...))
+					if stop != nil {
+						stop()
+					}
+				}, drivers.ListenConfig{})
+			} else if op == opListen || op == opListenSysex {
 				stop, err = l.in.Listen(func(b []byte, ts int32) { l.got[id] = append(l.got[id], append([]byte(nil), b...)) }, drivers.ListenConfig{SysEx: op == opListenSysex})
 			} else {
 				stop, err = midi.ListenTo(l.in, func(m midi.Message, ts int32) { l.got[id] = append(l.got[id], append([]byte(nil), m...)) })
@@ -153,6 +165,9 @@ func (l *lcInst) apply(op lcOp) (sig, what string) {
 				expectErr = drivers.ErrPortClosed
 			} else if l.m.listener == 1 && (op != opSendSysex || l.m.sysex) {
 				expectDelivered = 1
+				if l.m.selfStop {
+					l.m.listener, l.m.selfStop = 2, false
+				}
 			}
 		}
 	})
@@ -207,7 +222,7 @@ func relisten(l *lcInst) string {
 
 func (l *lcInst) key() string {
 	var b strings.Builder
-	fmt.Fprintf(&b, "%v %v %d %v|", l.m.inOpen, l.m.outOpen, l.m.listener, l.m.sysex)
+	fmt.Fprintf(&b, "%v %v %d %v %v|", l.m.inOpen, l.m.outOpen, l.m.listener, l.m.sysex, l.m.selfStop)
 	livespace.Dump(&b, reflect.ValueOf(l.drv), map[uintptr]bool{})
 	return b.String()
 }
